@@ -234,26 +234,26 @@ Proof. intros H. unfold find_max_part. destruct (part_ids_some l H) as [ns E]. r
 (* ------------------------------------------------------------------------------------------ *)
 (* directory updates                                                                          *)
 (* ------------------------------------------------------------------------------------------ *)
-Lemma put_files_other es d q : ~ In q (map fst es) -> lookup q (put_files es d) = lookup q d.
+Lemma put_files_other sch es d q : ~ In q (map fst es) -> lookup q (put_files sch es d) = lookup q d.
 Proof.
   unfold put_files. revert d. induction es as [|e es IH]; intros d H; cbn; [reflexivity|].
   rewrite IH by (intros Hq; apply H; now right). apply lookup_set_other.
   apply bytes_eqb_false. intros E. apply H. left. exact E.
 Qed.
 
-Lemma put_files_in es d e : NoDup (map fst es) -> In e es -> lookup (fst e) (put_files es d) = Some (snd e).
+Lemma put_files_in sch es d e : NoDup (map fst es) -> In e es -> lookup (fst e) (put_files sch es d) = Some (sch :: snd e).
 Proof.
   unfold put_files. revert d. induction es as [|x es IH]; intros d N Hin; [contradiction|]. cbn in N. inversion N; subst.
   cbn. destruct Hin as [Hin|Hin].
-  - subst x. change (lookup (fst e) (put_files es (set_file (fst e) (snd e) d)) = Some (snd e)).
+  - subst x. change (lookup (fst e) (put_files sch es (set_file (fst e) (sch :: snd e) d)) = Some (sch :: snd e)).
     rewrite put_files_other by assumption. apply lookup_set_same.
   - now apply IH.
 Qed.
 
-Lemma put_files_some es d q : lookup q (put_files es d) <> None -> In q (map fst es) \/ lookup q d <> None.
+Lemma put_files_some sch es d q : lookup q (put_files sch es d) <> None -> In q (map fst es) \/ lookup q d <> None.
 Proof.
   intros H. destruct (mem_p q (map fst es)) eqn:M; [left; now apply mem_p_spec|].
-  right. rewrite <- (put_files_other es d q); [exact H | now apply mem_p_false].
+  right. rewrite <- (put_files_other sch es d q); [exact H | now apply mem_p_false].
 Qed.
 
 Lemma lookup_drop_files ps d q : lookup q (drop_files ps d) = if mem_p q ps then None else lookup q d.
@@ -267,7 +267,7 @@ Definition wf_rgs (rgs : list rgroup) : Prop :=
 
 Definition wf_op (o : op) : Prop :=
   match o with
-  | OWrite r | OAppend r | OOverwrite r | OWriteRgs r _ _ => wf_rgs r
+  | OWrite _ r | OAppend r | OOverwrite r | OWriteRgs r _ _ => wf_rgs r
   | ORemove _ _ => True
   end.
 
@@ -387,35 +387,37 @@ Qed.
 Lemma inv_empty : inv empty.
 Proof. repeat split; cbn; try constructor; try contradiction; try congruence. Qed.
 
-Lemma inv_perm d sum sum' n : Permutation sum sum' -> inv {| st_dir := d; st_sum := sum; st_num := n |} ->
-  inv {| st_dir := d; st_sum := sum'; st_num := n |}.
+Lemma inv_perm d sum sum' n pt c : Permutation sum sum' -> inv {| st_dir := d; st_sum := sum; st_num := n; st_part := pt; st_sch := c |} ->
+  inv {| st_dir := d; st_sum := sum'; st_num := n; st_part := pt; st_sch := c |}.
 Proof.
-  intros P [A [B [Cn [D E]]]]. cbn in *. repeat split; cbn [st_dir st_sum st_num].
+  intros P [A [B [Cn [D [E F]]]]]. cbn in *. repeat split; cbn [st_dir st_sum st_num st_part st_sch].
   - intros e He. apply A. eapply Permutation_in; [symmetry; exact P | exact He].
   - intros p Hp. eapply Permutation_in; [apply Permutation_map; exact P | now apply B].
   - eapply Permutation_NoDup; [apply Permutation_map; exact P | exact Cn].
   - rewrite D. now apply total_perm.
   - intros e He. apply E. eapply Permutation_in; [symmetry; exact P | exact He].
+  - intros Hn. rewrite (F Hn) in P. now apply Permutation_nil in P.
 Qed.
 
 Lemma inv_paths_part_id s : inv s -> forall p, In p (map fst (st_sum s)) -> exists n, part_id p = Some n.
 Proof.
-  intros [_ [_ [_ [_ E]]]] p Hp. apply in_map_iff in Hp. destruct Hp as [e [Ee He]]. subst p. apply well_named_part_id, E, He.
+  intros [_ [_ [_ [_ [E _]]]]] p Hp. apply in_map_iff in Hp. destruct Hp as [e [Ee He]]. subst p. apply well_named_part_id, E, He.
 Qed.
 
-Lemma add_rgs_inv s rgs le s' : inv s -> wf_rgs rgs -> add_rgs s rgs le = Some s' ->
-  inv s' /\ exists off, find_max_part (map fst (st_sum s)) = Some off
+Lemma add_rgs_inv s rgs le s' : inv s -> st_part s <> None -> wf_rgs rgs -> add_rgs s rgs le = Some s' ->
+  inv s' /\ st_part s' = st_part s /\ st_sch s' = st_sch s /\ exists off, find_max_part (map fst (st_sum s)) = Some off
                      /\ Permutation (st_sum s') (st_sum s ++ new_entries off rgs)
                      /\ st_sum s' = isort le (st_sum s ++ new_entries off rgs)
-                     /\ st_dir s' = put_files (new_entries off rgs) (st_dir s).
+                     /\ st_dir s' = put_files (st_sch s) (new_entries off rgs) (st_dir s).
 Proof.
-  intros I W H. unfold add_rgs in H. destruct (find_max_part (map fst (st_sum s))) as [off|] eqn:Hoff; [|discriminate].
-  inversion H; subst s'; clear H. cbn. split; [|exists off; repeat split; auto; apply isort_perm].
+  intros I Hpt W H. unfold add_rgs in H. destruct (find_max_part (map fst (st_sum s))) as [off|] eqn:Hoff; [|discriminate].
+  inversion H; subst s'; clear H. cbn [st_dir st_sum st_num st_part st_sch].
+  split; [|split; [reflexivity|]; split; [reflexivity|]; exists off; repeat split; auto; apply isort_perm].
   apply (inv_perm _ (st_sum s ++ new_entries off rgs)); [symmetry; apply isort_perm|].
-  destruct I as [A [B [Cn [D E]]]]. set (es := new_entries off rgs).
+  destruct I as [A [B [Cn [D [E F]]]]]. set (es := new_entries off rgs).
   assert (Fr : forall e, In e es -> ~ In (fst e) (map fst (st_sum s))) by (intros e He; now apply (new_entries_fresh _ off rgs)).
   assert (Nes : NoDup (map fst es)) by now apply new_entries_nodup.
-  repeat split; cbn [st_dir st_sum st_num].
+  repeat split; cbn [st_dir st_sum st_num st_part st_sch].
   - intros e He. apply in_app_or in He. destruct He as [He|He].
     + rewrite put_files_other; [now apply A|]. intros Hin. apply in_map_iff in Hin. destruct Hin as [e' [Ee He']].
       apply (Fr e' He'). rewrite Ee. now apply in_map.
@@ -424,6 +426,7 @@ Proof.
   - rewrite map_app. apply NoDup_app_intro; auto. intros p Hp Hq. apply in_map_iff in Hq. destruct Hq as [e [Ee He]]. subst p. exact (Fr e He Hp).
   - rewrite (total_perm _ _ (isort_perm le (st_sum s ++ es))). reflexivity.
   - intros e He. apply in_app_or in He. destruct He as [He|He]; [now apply E | now apply (new_entries_named off rgs)].
+  - intros Hn. contradiction.
 Qed.
 
 Lemma add_rgs_defined s rgs le : inv s -> exists s', add_rgs s rgs le = Some s'.
@@ -432,11 +435,11 @@ Proof.
   rewrite E. now eexists.
 Qed.
 
-Lemma remove_inv s sel : inv s ->
+Lemma remove_inv s sel : inv s -> st_part s <> None ->
   inv {| st_dir := drop_files (map fst (selected sel (st_sum s))) (st_dir s); st_sum := remove_at sel (st_sum s);
-         st_num := (st_num s - total (selected sel (st_sum s)))%Z |}.
+         st_num := (st_num s - total (selected sel (st_sum s)))%Z; st_part := st_part s; st_sch := st_sch s |}.
 Proof.
-  intros [A [B [Cn [D E]]]]. rewrite remove_at_pick, selected_pick. repeat split; cbn [st_dir st_sum st_num].
+  intros [A [B [Cn [D [E F]]]]] Hpt. rewrite remove_at_pick, selected_pick. repeat split; cbn [st_dir st_sum st_num st_part st_sch].
   - intros e He. rewrite lookup_drop_files.
     pose proof (pick_disj sel fst 0 (st_sum s) e Cn He) as Hd.
     match goal with |- (if ?b then _ else _) = _ => destruct b eqn:M end.
@@ -450,28 +453,30 @@ Proof.
   - now apply pick_nodup.
   - rewrite D, (total_pick sel 0 (st_sum s)). lia.
   - intros e He. apply E. eapply pick_in; eauto.
+  - intros Hn. contradiction.
 Qed.
 
 Section SortpGeneric.
   Variable sortp : state -> option state.
-  Hypothesis sortp_ok : forall s, inv s -> exists s', sortp s = Some s' /\ inv s' /\ abs s' = abs s.
+  Hypothesis sortp_ok : forall s, inv s -> exists s', sortp s = Some s' /\ inv s' /\ abs s' = abs s /\ st_part s' = st_part s.
 
-  Lemma maybe_sortp_ok b s : inv s -> exists s', maybe_sortp sortp b s = Some s' /\ inv s' /\ abs s' = abs s.
+  Lemma maybe_sortp_ok b s : inv s -> exists s', maybe_sortp sortp b s = Some s' /\ inv s' /\ abs s' = abs s /\ st_part s' = st_part s.
   Proof. intros I. destruct b; cbn; [now apply sortp_ok | now exists s]. Qed.
 
   (* state just before _sort_part_names in overwrite *)
-  Lemma overwrite_mid s rgs s1 : inv s -> wf_rgs rgs ->
+  Lemma overwrite_mid s rgs s1 : inv s -> st_part s <> None -> wf_rgs rgs ->
     add_rgs s rgs (fun x y => (first_index_of (st_sum s) x <=? first_index_of (st_sum s) y)%N) = Some s1 ->
     let newdirs := map (fun e => dir_of (fst e)) (new_entries 0 rgs) in
     let gone := filter (fun e => mem_p (dir_of (fst e)) newdirs) (st_sum s) in
     let keep := filter (fun e => negb (mem_p (fst e) (map fst gone))) (st_sum s1) in
-    inv {| st_dir := drop_files (map fst gone) (st_dir s1); st_sum := keep; st_num := (st_num s1 - total gone)%Z |}.
+    inv {| st_dir := drop_files (map fst gone) (st_dir s1); st_sum := keep; st_num := (st_num s1 - total gone)%Z;
+           st_part := st_part s1; st_sch := st_sch s1 |}.
   Proof.
-    intros I W H newdirs gone keep. destruct (add_rgs_inv _ _ _ _ I W H) as [I1 [off [Hoff [P [_ _]]]]].
-    destruct I1 as [A [B [Cn [D E]]]].
+    intros I Hpt W H newdirs gone keep. destruct (add_rgs_inv _ _ _ _ I Hpt W H) as [I1 [Ept [_ [off [Hoff [P [_ _]]]]]]].
+    destruct I1 as [A [B [Cn [D [E F]]]]].
     assert (Gsub : forall e, In e gone -> In e (st_sum s1)).
     { intros e He. apply filter_In in He. eapply Permutation_in; [symmetry; exact P|]. apply in_or_app. now left. }
-    repeat split; cbn [st_dir st_sum st_num].
+    repeat split; cbn [st_dir st_sum st_num st_part st_sch].
     - intros e He. apply filter_In in He. destruct He as [He Hk]. rewrite lookup_drop_files. apply negb_true_iff in Hk. rewrite Hk. now apply A.
     - intros p Hp. rewrite lookup_drop_files in Hp. destruct (mem_p p (map fst gone)) eqn:M; [congruence|].
       specialize (B p Hp). apply in_map_iff in B. destruct B as [e [Ee He]]. apply in_map_iff. exists e. split; [exact Ee|].
@@ -488,6 +493,7 @@ Section SortpGeneric.
           + intros Hx. split; [now apply Gsub|]. rewrite negb_involutive. apply mem_p_spec. now apply in_map. }
       subst keep. unfold entry in *. lia.
     - intros e He. apply filter_In in He. now apply E.
+    - intros Hn. rewrite Ept in Hn. contradiction.
   Qed.
 End SortpGeneric.
 
@@ -511,48 +517,46 @@ Proof. reflexivity. Qed.
 Lemma new_entries_absf off rgs : map absf (new_entries off rgs) = flat rgs.
 Proof. apply new_entries_abs. Qed.
 
+Lemma first_index_abs old x : first_index_of old x = sfirst_index_of (map absf old) (absf x).
+Proof. unfold first_index_of, sfirst_index_of. rewrite index_from_map, map_length. reflexivity. Qed.
+
+Lemma cats_known_part s rgs : cats_known s rgs = true -> st_part s <> None.
+Proof. unfold cats_known. destruct (st_part s); [discriminate | discriminate]. Qed.
+
+Definition part_after (pt : option bool) (o : op) : option bool :=
+  match o with OWrite _ rgs => Some (partitioned rgs) | _ => pt end.
+
 Section Steps.
   Variable sortp : state -> option state.
-  Hypothesis sortp_ok : forall s, inv s -> exists s', sortp s = Some s' /\ inv s' /\ abs s' = abs s.
+  Hypothesis sortp_ok : forall s, inv s -> exists s', sortp s = Some s' /\ inv s' /\ abs s' = abs s /\ st_part s' = st_part s.
 
-  Theorem step_inv s o s' : inv s -> wf_op o -> step sortp s o = Some s' -> inv s'.
+  (* everything one accepted step gives *)
+  Theorem step_all s o s' : inv s -> wf_op o -> step sortp s o = Some s' ->
+    inv s' /\ spec_step (abs s) o = Some (abs s') /\ st_part s' = part_after (st_part s) o.
   Proof.
-    intros I W H. destruct o as [rgs|rgs|rgs|sel sp|rgs k sp]; cbn [step wf_op] in *.
-    - destruct (st_dir s) eqn:Ed; [|discriminate]. destruct (st_sum s) eqn:Es; [|discriminate]. inversion H; subst s'; clear H.
-      pose proof (new_entries_nodup 0 rgs W) as Nes.
-      repeat split; cbn [st_dir st_sum st_num].
-      + intros e He. now apply put_files_in.
-      + intros p Hp. apply put_files_some in Hp. destruct Hp as [Hp|Hp]; [exact Hp | cbn in Hp; congruence].
-      + exact Nes.
-      + intros e He. now apply (new_entries_named 0 rgs).
-    - destruct (cats_known s rgs); [|discriminate]. now destruct (add_rgs_inv _ _ _ _ I W H).
-    - destruct (partitioned rgs && _); [|discriminate].
-      destruct (add_rgs s rgs _) as [s1|] eqn:E1; [|discriminate].
-      pose proof (overwrite_mid s rgs s1 I W E1) as Im. cbv zeta in Im.
-      destruct (sortp_ok _ Im) as [s2 [E2 [I2 _]]]. rewrite E2 in H. now inversion H; subst.
-    - pose proof (remove_inv s sel I) as Ir. destruct (maybe_sortp_ok sortp sortp_ok sp _ Ir) as [s2 [E2 [I2 _]]].
-      rewrite E2 in H. now inversion H; subst.
-    - destruct (cats_known s rgs); [|discriminate]. destruct (add_rgs s rgs _) as [s1|] eqn:E1; [|discriminate].
-      destruct (add_rgs_inv _ _ _ _ I W E1) as [I1 _]. destruct (maybe_sortp_ok sortp sortp_ok sp _ I1) as [s2 [E2 [I2 _]]].
-      rewrite E2 in H. now inversion H; subst.
-  Qed.
-
-  Lemma first_index_abs old x : first_index_of old x = sfirst_index_of (map absf old) (absf x).
-  Proof. unfold first_index_of, sfirst_index_of. rewrite index_from_map, map_length. reflexivity. Qed.
-
-  Theorem step_refines s o s' : inv s -> wf_op o -> step sortp s o = Some s' -> spec_step (abs s) o = Some (abs s').
-  Proof.
-    intros I W H. destruct o as [rgs|rgs|rgs|sel sp|rgs k sp]; cbn [step wf_op spec_step] in *.
-    - destruct (st_dir s) eqn:Ed; [|discriminate]. destruct (st_sum s) eqn:Es; [|discriminate]. inversion H; subst s'; clear H.
-      rewrite !abs_def, Es. cbn [map st_sum]. now rewrite new_entries_absf.
-    - destruct (cats_known s rgs); [|discriminate]. destruct (add_rgs_inv _ _ _ _ I W H) as [_ [off [_ [_ [Es _]]]]].
+    intros I W H. destruct o as [sch rgs|rgs|rgs|sel sp|rgs k sp]; cbn [step wf_op spec_step part_after] in *.
+    - destruct (st_part s) eqn:Ep; [discriminate|]. destruct (st_dir s) eqn:Ed; [|discriminate].
+      destruct (st_sum s) eqn:Es; [|discriminate]. inversion H; subst s'; clear H.
+      pose proof (new_entries_nodup 0 rgs W) as Nes. split; [|split; [|reflexivity]].
+      + repeat split; cbn [st_dir st_sum st_num st_part st_sch].
+        * intros e He. now apply put_files_in.
+        * intros p Hp. apply put_files_some in Hp. destruct Hp as [Hp|Hp]; [exact Hp | cbn in Hp; congruence].
+        * exact Nes.
+        * intros e He. now apply (new_entries_named 0 rgs).
+        * discriminate.
+      + rewrite !abs_def, Es. cbn [map st_sum]. now rewrite new_entries_absf.
+    - destruct (cats_known s rgs) eqn:Ck; [|discriminate]. pose proof (cats_known_part _ _ Ck) as Hpt.
+      destruct (add_rgs_inv _ _ _ _ I Hpt W H) as [I1 [Ept [_ [off [_ [_ [Es _]]]]]]]. split; [exact I1|]. split; [|exact Ept].
       rewrite !abs_def, Es, isort_true, map_app, new_entries_absf. reflexivity.
-    - destruct (partitioned rgs && _); [|discriminate].
+    - destruct (partitioned rgs); [|discriminate]. cbn [andb] in H.
+      destruct (st_part s) as [[|]|] eqn:Ep; try discriminate.
+      assert (Hpt : st_part s <> None) by (rewrite Ep; discriminate).
       destruct (add_rgs s rgs _) as [s1|] eqn:E1; [|discriminate].
-      pose proof (overwrite_mid s rgs s1 I W E1) as Im. cbv zeta in Im.
-      destruct (sortp_ok _ Im) as [s2 [E2 [_ A2]]]. rewrite E2 in H. inversion H; subst s2; clear H. rewrite A2.
-      destruct (add_rgs_inv _ _ _ _ I W E1) as [I1 [off [Hoff [P [Es _]]]]].
-      rewrite !abs_def. cbn [st_sum]. f_equal. rewrite Es.
+      pose proof (overwrite_mid s rgs s1 I Hpt W E1) as Im. cbv zeta in Im.
+      destruct (add_rgs_inv _ _ _ _ I Hpt W E1) as [I1 [Ept [_ [off [Hoff [P [Es _]]]]]]].
+      destruct (sortp_ok _ Im) as [s2 [E2 [I2 [A2 P2]]]]. rewrite E2 in H. inversion H; subst s2; clear H.
+      split; [exact I2|]. split; [|cbn [st_part] in P2; now rewrite P2, Ept, Ep].
+      rewrite A2. rewrite !abs_def. cbn [st_sum]. f_equal. rewrite Es.
       set (old := st_sum s) in *. set (es := new_entries off rgs) in *. symmetry.
       rewrite (filter_isort_key (first_index_of old)).
       rewrite (isort_map absf _ (fun x y => (sfirst_index_of (map absf old) x <=? sfirst_index_of (map absf old) y)%N))
@@ -575,41 +579,58 @@ Section Steps.
         intros e He. symmetry. apply negb_true_iff. apply mem_p_false. intros Hin.
         apply (new_entries_fresh (map fst old) off rgs e W Hoff He).
         apply in_map_iff in Hin. destruct Hin as [g [Eg Hg]]. apply filter_In in Hg. rewrite <- Eg. apply in_map. tauto.
-    - pose proof (remove_inv s sel I) as Ir. destruct (maybe_sortp_ok sortp sortp_ok sp _ Ir) as [s2 [E2 [_ A2]]].
-      rewrite E2 in H. inversion H; subst s2; clear H. rewrite A2. rewrite !abs_def. cbn [st_sum]. f_equal.
+    - destruct (st_part s) as [b|] eqn:Ep; [|discriminate].
+      assert (Hpt : st_part s <> None) by (rewrite Ep; discriminate).
+      pose proof (remove_inv s sel I Hpt) as Ir. rewrite Ep in Ir.
+      destruct (maybe_sortp_ok sortp sortp_ok sp _ Ir) as [s2 [E2 [I2 [A2 P2]]]].
+      rewrite E2 in H. inversion H; subst s2; clear H. split; [exact I2|]. split; [|exact P2].
+      rewrite A2. rewrite !abs_def. cbn [st_sum]. f_equal.
       rewrite remove_at_pick. symmetry. apply (pick_map sel absf true 0 (st_sum s)).
-    - destruct (cats_known s rgs); [|discriminate]. destruct (add_rgs s rgs _) as [s1|] eqn:E1; [|discriminate].
-      destruct (add_rgs_inv _ _ _ _ I W E1) as [I1 [off [_ [_ [Es _]]]]].
-      destruct (maybe_sortp_ok sortp sortp_ok sp _ I1) as [s2 [E2 [_ A2]]].
-      rewrite E2 in H. inversion H; subst s2; clear H. rewrite A2. rewrite !abs_def, Es. f_equal.
+    - destruct (cats_known s rgs) eqn:Ck; [|discriminate]. pose proof (cats_known_part _ _ Ck) as Hpt.
+      destruct (add_rgs s rgs _) as [s1|] eqn:E1; [|discriminate].
+      destruct (add_rgs_inv _ _ _ _ I Hpt W E1) as [I1 [Ept [_ [off [_ [_ [Es _]]]]]]].
+      destruct (maybe_sortp_ok sortp sortp_ok sp _ I1) as [s2 [E2 [I2 [A2 P2]]]].
+      rewrite E2 in H. inversion H; subst s2; clear H. split; [exact I2|]. split; [|now rewrite P2].
+      rewrite A2. rewrite !abs_def, Es. f_equal.
       rewrite (isort_map absf _ (key_le k (fun g : path * rows => fst g) (fun g => N.of_nat (length (snd g))))) by (intros a b; destruct k; reflexivity).
       now rewrite map_app, new_entries_absf.
   Qed.
 
-  (* the only refusals: a write onto a non-empty directory; new data with partition columns for a dataset whose
-     partition columns are unknown (no row group left); overwrite of an unpartitioned or empty dataset *)
+  Theorem step_inv s o s' : inv s -> wf_op o -> step sortp s o = Some s' -> inv s'.
+  Proof. intros I W H. exact (proj1 (step_all s o s' I W H)). Qed.
+
+  Theorem step_refines s o s' : inv s -> wf_op o -> step sortp s o = Some s' -> spec_step (abs s) o = Some (abs s').
+  Proof. intros I W H. exact (proj1 (proj2 (step_all s o s' I W H))). Qed.
+
+  (* the only refusals: a write where a dataset exists; append / write_row_groups / remove where none exists or with another
+     partitioning than the dataset's; overwrite of anything but a partitioned dataset *)
   Theorem step_refused s o : inv s -> wf_op o -> step sortp s o = None ->
     match o with
-    | OWrite _ => st_dir s <> [] \/ st_sum s <> []
+    | OWrite _ _ => st_part s <> None
     | OAppend rgs | OWriteRgs rgs _ _ => cats_known s rgs = false
-    | OOverwrite rgs => partitioned rgs = false \/ st_sum s = []
-    | ORemove _ _ => False
+    | OOverwrite rgs => partitioned rgs = false \/ st_part s <> Some true
+    | ORemove _ _ => st_part s = None
     end.
   Proof.
-    intros I W H. destruct o as [rgs|rgs|rgs|sel sp|rgs k sp]; cbn [step wf_op] in *.
-    - destruct (st_dir s); [|left; discriminate]. destruct (st_sum s); [discriminate | right; discriminate].
-    - destruct (cats_known s rgs); [|reflexivity]. destruct (add_rgs_defined s rgs (fun _ _ => true) I) as [s1 E]. congruence.
-    - destruct (partitioned rgs); [|now left]. cbn [andb] in H.
-      destruct (match st_sum s with [] => false | _ :: _ => true end) eqn:Em;
-        [|right; destruct (st_sum s); [reflexivity | discriminate]].
-      exfalso.
+    intros I W H. destruct o as [sch rgs|rgs|rgs|sel sp|rgs k sp]; cbn [step wf_op] in *.
+    - destruct (st_part s) eqn:Ep; [discriminate|]. exfalso.
+      destruct I as [_ [B [_ [_ [_ F]]]]]. rewrite (F Ep) in *.
+      destruct (st_dir s) as [|[p v] r] eqn:Ed; [discriminate|].
+      assert (X : lookup p ((p, v) :: r) <> None) by (cbn; rewrite bytes_eqb_refl; discriminate). exact (B p X).
+    - destruct (cats_known s rgs) eqn:Ck; [|reflexivity]. destruct (add_rgs_defined s rgs (fun _ _ => true) I) as [s1 E]. congruence.
+    - destruct (partitioned rgs); [|now left]. cbn [andb] in H. right.
+      destruct (st_part s) as [[|]|] eqn:Ep; try discriminate. exfalso.
+      assert (Hpt : st_part s <> None) by (rewrite Ep; discriminate).
       destruct (add_rgs_defined s rgs (fun x y => (first_index_of (st_sum s) x <=? first_index_of (st_sum s) y)%N) I) as [s1 E1].
-      rewrite E1 in H. pose proof (overwrite_mid s rgs s1 I W E1) as Im. cbv zeta in Im.
+      rewrite E1 in H. pose proof (overwrite_mid s rgs s1 I Hpt W E1) as Im. cbv zeta in Im.
       destruct (sortp_ok _ Im) as [s2 [E2 _]]. congruence.
-    - pose proof (remove_inv s sel I) as Ir. destruct (maybe_sortp_ok sortp sortp_ok sp _ Ir) as [s2 [E2 _]]. congruence.
-    - destruct (cats_known s rgs); [|reflexivity]. exfalso.
+    - destruct (st_part s) as [b|] eqn:Ep; [|reflexivity]. exfalso.
+      assert (Hpt : st_part s <> None) by (rewrite Ep; discriminate).
+      pose proof (remove_inv s sel I Hpt) as Ir. rewrite Ep in Ir.
+      destruct (maybe_sortp_ok sortp sortp_ok sp _ Ir) as [s2 [E2 _]]. congruence.
+    - destruct (cats_known s rgs) eqn:Ck; [|reflexivity]. exfalso. pose proof (cats_known_part _ _ Ck) as Hpt.
       destruct (add_rgs_defined s rgs (key_le k (fun e : entry => dir_of (fst e)) (fun e => N.of_nat (length (snd e)))) I) as [s1 E1].
-      rewrite E1 in H. destruct (add_rgs_inv _ _ _ _ I W E1) as [I1 _].
+      rewrite E1 in H. destruct (add_rgs_inv _ _ _ _ I Hpt W E1) as [I1 _].
       destruct (maybe_sortp_ok sortp sortp_ok sp _ I1) as [s2 [E2 _]]. congruence.
   Qed.
 End Steps.
